@@ -445,7 +445,7 @@ class Session:
         ce = (part.headers.get("Content-Encoding") or "").lower()
         e: Dict[str, Any] = {"ev": "data", "lvl": lvl, "kind": "raw", "data": [], "empties": 0, "maxchunk": 0,
                              "ateof": True, "err": "", "fed": 0, "cmsapi": False, "chunkwise": False,
-                             "codec": (te or "") + ("+" + ce if ce else ""), "api": api, "b64": te == "base64"}
+                             "codec": (te or "") + ("+" + ce if ce else ""), "api": api, "carry": te in ("base64", "quoted-printable")}
         out = bytearray()
         try:
             if api == "read":
@@ -772,13 +772,13 @@ def leaf(content: bytes, **kw: Any) -> dict:
 def driver_roundtrip(ctx: Ctx, loop: steploop.StepLoop, table: List[Any]) -> List[Body]:
     """(A) every sampled class content, concretised, written by the real writer, read back."""
     rng = sub_rng(ctx, "rt")
-    rows = table if not ctx.quick else stratified(table, rng, 1)
+    rows = table if not ctx.quick else stratified(table, rng, 1)     # thorough: every enumerated content
     if ctx.quick and len(rows) > 240:
         rows = rng.sample(rows, 240)
     ctx.log(f"round trip: {len(rows)} of {len(table)} enumerated (content, boundary) classes")
     bodies: List[Body] = []
-    variants_per = ctx.pick(1, 3)
     for n, (cls, mb, sig) in enumerate(rows):
+        variants_per = 1 if ctx.quick else (2 if n % 4 == 0 else 1)
         for v in range(variants_per):
             blen = rng.choice([1, 2, 70]) if (v or rng.random() < 0.4) else (1 if len(mb) == 1 else 2)
             bnd = G.BOUNDARIES[blen]
@@ -807,8 +807,10 @@ def driver_roundtrip(ctx: Ctx, loop: steploop.StepLoop, table: List[Any]) -> Lis
                 apis = list(RAW_APIS) + (["post"] if kind != "mixed" else ["read_decode"])
                 rng.shuffle(apis)
                 mc = min_chunk(bnd.encode())
-                sessions_for(loop, bd, rng, ctx.pick(4, 10 ** 6), not ctx.quick, apis,
-                             [mc, mc + 1, mc + 2, 8192, 2 * mc + 3, max(100, mc + 9)], cap=ctx.pick(8, 10 ** 6))
+                every_cut = (not ctx.quick) and n % 16 == 0          # thorough: every cut around every boundary
+                sessions_for(loop, bd, rng, 4 if ctx.quick else (10 ** 6 if every_cut else 8), every_cut, apis,
+                             [mc, mc + 1, mc + 2, 8192, 2 * mc + 3, max(100, mc + 9)],
+                             cap=8 if ctx.quick else (10 ** 6 if every_cut else 12))
             bodies.append(bd)
     return bodies
 
@@ -1121,17 +1123,18 @@ def judge(ctx: Ctx, bodies: List[Body], label: str) -> None:
         return
     # balance batches by event volume
     traces.sort(key=lambda t: -sum(len(e.get("body", [])) + len(e.get("data", [])) + 8 for e in t["events"]))
-    nb = max(1, min(8, len(traces) // 40))
+    nb = max(1, min(ctx.pick(8, 48), len(traces) // 40))
     batches: List[List[dict]] = [[] for _ in range(nb)]
     for i, t in enumerate(traces):
         batches[i % nb].append(t)
 
     def one(batch: List[dict]) -> Any:
         stripped = [{k: v for k, v in t.items() if k != "recipe"} for t in batch]
-        verdicts, res = validate_batch("MultipartTrace", "MultipartTrace.cfg", stripped, timeout=2400, heap="3g")
+        verdicts, res = validate_batch("MultipartTrace", "MultipartTrace.cfg", stripped, timeout=2400, heap="3g",
+                                        env={"JAVA_TOOL_OPTIONS": "-Xss64m"})
         return batch, verdicts, res
 
-    with ThreadPoolExecutor(max_workers=4) as ex:
+    with ThreadPoolExecutor(max_workers=ctx.pick(4, 6)) as ex:
         results = list(ex.map(one, batches))
     for batch, verdicts, res in results:
         ctx.add_trace_batch(len(batch), res)
@@ -1150,6 +1153,8 @@ def judge(ctx: Ctx, bodies: List[Body], label: str) -> None:
             if not v.ok:
                 failures.append((v.pos, v.clause or "TraceNotConsumed"))
             for pos, clause in failures:
+                if clause == "HarnessProtocol":
+                    raise MachineryError(f"harness emitted an event the trace spec cannot place: {t['src']} event {pos}")
                 bad_ev = t["events"][pos] if pos < len(t["events"]) else {}
                 sess = {}
                 for e in t["events"][: pos + 1]:
@@ -1222,15 +1227,17 @@ def run(ctx: Ctx) -> None:
     loop = steploop.new_loop()
     # ---- 1. bounded model
     l1, l2, ln = ctx.pick((3, 1, 1), (5, 2, 2))
+    if os.environ.get("C19_SKIP_MODEL"):      # development aid for mutation runs (the model does not depend on /repo)
+        l1, l2, ln = 1, 0, 9
     res = run_tlc("MultipartMC", mc_cfg(l1, l2, ln, True), workers=16, timeout=ctx.pick(900, 3000), deadlock=False)
     ok = ctx.expect_model_ok(f"MultipartMC(MaxLen1={l1},MaxLen2={l2},MaxLenN={ln},WithLen)", res)
     ctx.log(f"model: {res.distinct} states, ok={ok}, {res.wall_s:.0f}s")
     if not ctx.quick:
-        res = run_tlc("MultipartMC", mc_cfg(6, 0, -1, False), workers=16, timeout=3000, deadlock=False)
+        res = run_tlc("MultipartMC", mc_cfg(6, 0, 9, False), workers=16, timeout=3000, deadlock=False)
         ok = ctx.expect_model_ok("MultipartMC(MaxLen1=6,single part,no Content-Length)", res)
         ctx.log(f"model len<=6: {res.distinct} states, ok={ok}, {res.wall_s:.0f}s")
     # ---- 2. adversarial contents from TLC
-    table = class_table(ctx, ctx.pick(5, 6))
+    table = class_table(ctx, 5)
     ctx.log(f"TLC classified {len(table)} (content, boundary) pairs into {len({(r[1], r[2]) for r in table})} signatures")
     # ---- 3. drivers, then TLC's verdicts on everything recorded
     todo: List[Tuple[str, List[Body]]] = []
@@ -1282,13 +1289,14 @@ def selftest(ctx: Ctx) -> int:
     bad5["events"][idx[-1]]["empties"] = 1                 # empty read_chunk without at_eof
     bad6 = copy.deepcopy(good)
     bad6["events"][0]["body"][-6] = 120                    # the writer's closing delimiter is damaged
-    vs, _ = validate_batch("MultipartTrace", "MultipartTrace.cfg", [good, bad1, bad2, bad3, bad4, bad5, bad6])
+    vs, _ = validate_batch("MultipartTrace", "MultipartTrace.cfg", [good, bad1, bad2, bad3, bad4, bad5, bad6],
+                           env={"JAVA_TOOL_OPTIONS": "-Xss64m"})
     fails = [failures_of(v) for v in vs]
     print(fails)
     ok = (not fails[0]) and all(fails[1:]) and int((vs[0].info or [[], 0])[1]) > 0
     # spec-level mutants: window one byte short; size rule without the header block
-    r1 = run_tlc("MultipartMC", mc_cfg(3, 1, -1, False, hd=1), workers=16, timeout=900, deadlock=False)
-    r2 = run_tlc("MultipartMC", mc_cfg(2, 1, -1, False, sm=True), workers=16, timeout=900, deadlock=False)
+    r1 = run_tlc("MultipartMC", mc_cfg(3, 1, 9, False, hd=1), workers=16, timeout=900, deadlock=False)
+    r2 = run_tlc("MultipartMC", mc_cfg(2, 1, 9, False, sm=True), workers=16, timeout=900, deadlock=False)
     print("mutant window-1:", r1.violated, "| mutant size-without-headers:", r2.violated)
     ok = ok and r1.violated == "InvWindowSufficient" and r2.violated == "InvSizeTruthful"
     print("selftest", "passed" if ok else "FAILED")
@@ -1315,7 +1323,7 @@ def replay(ctx: Ctx, path: str) -> int:
                     sseed=s.get("rs", 0))
     tr = bd.trace()
     tr.pop("recipe")
-    vs, _ = validate_batch("MultipartTrace", "MultipartTrace.cfg", [tr])
+    vs, _ = validate_batch("MultipartTrace", "MultipartTrace.cfg", [tr], env={"JAVA_TOOL_OPTIONS": "-Xss64m"})
     fails = failures_of(vs[0])
     print(f"replay: failures={fails} events={vs[0].total}")
     if fails:
